@@ -12,14 +12,14 @@
 //   - a fixed shard ID (the FSTree descriptor is written before Init), fixed object IDs (ids.go);
 //   - a harness-owned epoch (Epoch) and container-payments stub (Payments);
 //   - the GC timer disabled (24 h); GC passes and the new-epoch handler are invoked synchronously
-//     through World.GCPass / World.NewEpoch (injected export file inject/shard/export_verif.go);
+//     through World.GCPass / World.NewEpoch (injected export file inject/shard/shardworld_verif.go);
 //   - the write-cache flush ticker virtual (never fires by itself; World.Tick fires it and waits for
 //     the flush workers to become idle) when the check's overlay.spec rewires flush.go's "time".
 //
 // Required overlay.spec lines for a check that uses this package:
 //
-//	inject pkg/local_object_storage/shard inject/shard/export_verif.go
-//	inject pkg/local_object_storage/writecache inject/writecache/export_verif.go
+//	inject pkg/local_object_storage/shard inject/shard/shardworld_verif.go
+//	inject pkg/local_object_storage/writecache inject/writecache/shardworld_verif.go
 //	import pkg/local_object_storage/writecache/flush.go time=github.com/nspcc-dev/neofs-node/verif/worlds/shardworld/vtime
 //
 // Directory layout under Config.Dir:  blob/ (FSTree)  meta/meta.db (bbolt)  wc/ (write-cache).
@@ -306,18 +306,18 @@ func (w *World) SetMode(m mode.Mode) error { return w.Sh.SetMode(m) }
 // NewEpoch sets the harness epoch (metabase view) and runs the shard's new-epoch handler synchronously.
 func (w *World) NewEpoch(e uint64) {
 	w.Epoch.Set(e)
-	w.Sh.VerifHandleNewEpoch(e)
+	w.Sh.VerifSWHandleNewEpoch(e)
 }
 
 // HandleEpochEvent runs the new-epoch handler for epoch e WITHOUT touching the metabase epoch source
 // (models a delayed event: the handler processes e while the node is already further).
-func (w *World) HandleEpochEvent(e uint64) { w.Sh.VerifHandleNewEpoch(e) }
+func (w *World) HandleEpochEvent(e uint64) { w.Sh.VerifSWHandleNewEpoch(e) }
 
 // GCPass runs one garbage remover pass synchronously (expired collection + garbage removal).
-func (w *World) GCPass() { w.Sh.VerifGCPass() }
+func (w *World) GCPass() { w.Sh.VerifSWGCPass() }
 
 // GCEpochs returns the GC's (current, processed) epochs.
-func (w *World) GCEpochs() (uint64, uint64) { return w.Sh.VerifGCEpochs() }
+func (w *World) GCEpochs() (uint64, uint64) { return w.Sh.VerifSWGCEpochs() }
 
 // Tick fires the virtual write-cache flush ticker and returns once the flush scheduler has handed
 // a complete round of batches to the worker and the worker is idle again. Mechanism: the ticker
@@ -333,8 +333,8 @@ func (w *World) Tick() bool {
 	if !w.tk.Fire(w.stop) || !w.tk.Fire(w.stop) {
 		return false
 	}
-	wc := w.Sh.VerifWriteCache()
-	for i := 0; writecache.VerifInFlight(wc) != 0; i++ {
+	wc := w.Sh.VerifSWWriteCache()
+	for i := 0; writecache.VerifSWInFlight(wc) != 0; i++ {
 		if i < 100 {
 			runtime.Gosched()
 		} else {
@@ -349,7 +349,7 @@ func (w *World) WCCounters() string {
 	if !w.Cfg.WriteCache {
 		return ""
 	}
-	sz, objs, sizes, ok := writecache.VerifCounters(w.Sh.VerifWriteCache())
+	sz, objs, sizes, ok := writecache.VerifSWCounters(w.Sh.VerifSWWriteCache())
 	if !ok {
 		return "?"
 	}
